@@ -6,120 +6,439 @@ import (
 	"github.com/jotaen/klog/klog"
 	"github.com/jotaen/klog/klog/parser"
 	"github.com/jotaen/klog/klog/parser/json"
+	"github.com/jotaen/klog/klog/parser/txt"
 	zz "github.com/jotaen/klog/klog/zzverif"
 )
 
-// zzEnvelope returns the envelope klog hands to the JSON encoder.  Under the
-// engine that is the recorded value tree (encoding/json is an opaque codec
-// there); natively the emitted text is decoded again with encoding/json, which
-// additionally checks well-formedness of the real output for every replayed witness.
-func zzEnvelope(text string) (*json.Envelop, bool) {
-	if e, ok := zz.Encoded().(*json.Envelop); ok {
-		return e, true
-	}
-	if zz.Symbolic() {
-		return nil, false
-	}
-	var raw struct {
-		Records []struct {
-			json.RecordView
-			Entries []gojson.RawMessage `json:"entries"`
-		} `json:"records"`
-		Errors []json.ErrorView `json:"errors"`
-	}
-	if err := gojson.Unmarshal([]byte(text), &raw); err != nil {
-		return nil, false
-	}
-	env := &json.Envelop{Errors: raw.Errors}
-	if raw.Records != nil {
-		env.Records = []json.RecordView{}
-	}
-	for _, r := range raw.Records {
-		v := r.RecordView
-		v.Entries = nil
-		for _, e := range r.Entries {
-			var rv json.RangeView
-			if gojson.Unmarshal(e, &rv) != nil {
-				return nil, false
-			}
-			switch rv.Type {
-			case "range":
-				v.Entries = append(v.Entries, rv)
-			case "open_range":
-				v.Entries = append(v.Entries, rv.OpenRangeView)
-			default:
-				v.Entries = append(v.Entries, rv.EntryView)
-			}
-		}
-		env.Records = append(env.Records, v)
-	}
-	return env, true
+// ---------------------------------------------------------------------------
+// A reference JSON reader written from RFC 8259 (objects keep their key order).
+// The same code runs natively on the text the real encoding/json produced and
+// under the engine on the text of the engine's encoding/json model.
+// ---------------------------------------------------------------------------
+
+type zzJ struct {
+	kind  byte // 'o' object, 'a' array, 's' string, 'n' integer, 'r' other number, 't' true, 'f' false, 'z' null
+	s     string
+	n     int
+	keys  []string
+	elems []*zzJ
 }
 
-// ZZ_C20_Json: exactly one of records / errors is non-null; record objects
-// reproduce the parsed data; totals are consistent.
+type zzJReader struct {
+	t  string
+	p  int
+	ok bool
+}
+
+func (r *zzJReader) ws() {
+	for r.p < len(r.t) && (r.t[r.p] == ' ' || r.t[r.p] == '\n' || r.t[r.p] == '\r' || r.t[r.p] == '\t') {
+		r.p++
+	}
+}
+
+func (r *zzJReader) fail() *zzJ { r.ok = false; return &zzJ{kind: 'z'} }
+
+func (r *zzJReader) lit(w string, k byte) *zzJ {
+	if r.p+len(w) > len(r.t) || r.t[r.p:r.p+len(w)] != w {
+		return r.fail()
+	}
+	r.p += len(w)
+	return &zzJ{kind: k}
+}
+
+func zzHexVal(c byte) (int, bool) {
+	switch {
+	case c >= '0' && c <= '9':
+		return int(c - '0'), true
+	case c >= 'a' && c <= 'f':
+		return int(c-'a') + 10, true
+	case c >= 'A' && c <= 'F':
+		return int(c-'A') + 10, true
+	}
+	return 0, false
+}
+
+func (r *zzJReader) str() string {
+	r.p++ // opening quote
+	out := ""
+	for r.ok {
+		if r.p >= len(r.t) {
+			r.ok = false
+			break
+		}
+		c := r.t[r.p]
+		if c == '"' {
+			r.p++
+			return out
+		}
+		if c < 0x20 {
+			r.ok = false
+			break
+		}
+		if c != '\\' {
+			out += r.t[r.p : r.p+1]
+			r.p++
+			continue
+		}
+		r.p++
+		if r.p >= len(r.t) {
+			r.ok = false
+			break
+		}
+		e := r.t[r.p]
+		r.p++
+		switch e {
+		case '"', '\\', '/':
+			out += string(rune(e))
+		case 'b':
+			out += "\b"
+		case 'f':
+			out += "\f"
+		case 'n':
+			out += "\n"
+		case 'r':
+			out += "\r"
+		case 't':
+			out += "\t"
+		case 'u':
+			if r.p+4 > len(r.t) {
+				r.ok = false
+				break
+			}
+			v := 0
+			for i := 0; i < 4; i++ {
+				h, ok := zzHexVal(r.t[r.p+i])
+				if !ok {
+					r.ok = false
+				}
+				v = v*16 + h
+			}
+			r.p += 4
+			if v >= 0xD800 && v < 0xE000 {
+				r.ok = false // surrogates do not occur in klog's output (the encoder writes UTF-8)
+				break
+			}
+			out += string(rune(v))
+		default:
+			r.ok = false
+		}
+	}
+	return out
+}
+
+func (r *zzJReader) value(depth int) *zzJ {
+	r.ws()
+	if !r.ok || r.p >= len(r.t) || depth > 8 {
+		return r.fail()
+	}
+	c := r.t[r.p]
+	switch {
+	case c == '{':
+		r.p++
+		n := &zzJ{kind: 'o'}
+		r.ws()
+		if r.p < len(r.t) && r.t[r.p] == '}' {
+			r.p++
+			return n
+		}
+		for r.ok {
+			r.ws()
+			if r.p >= len(r.t) || r.t[r.p] != '"' {
+				return r.fail()
+			}
+			k := r.str()
+			r.ws()
+			if r.p >= len(r.t) || r.t[r.p] != ':' {
+				return r.fail()
+			}
+			r.p++
+			v := r.value(depth + 1)
+			n.keys, n.elems = append(n.keys, k), append(n.elems, v)
+			r.ws()
+			if r.p < len(r.t) && r.t[r.p] == ',' {
+				r.p++
+				continue
+			}
+			if r.p < len(r.t) && r.t[r.p] == '}' {
+				r.p++
+				return n
+			}
+			return r.fail()
+		}
+		return r.fail()
+	case c == '[':
+		r.p++
+		n := &zzJ{kind: 'a'}
+		r.ws()
+		if r.p < len(r.t) && r.t[r.p] == ']' {
+			r.p++
+			return n
+		}
+		for r.ok {
+			n.elems = append(n.elems, r.value(depth+1))
+			r.ws()
+			if r.p < len(r.t) && r.t[r.p] == ',' {
+				r.p++
+				continue
+			}
+			if r.p < len(r.t) && r.t[r.p] == ']' {
+				r.p++
+				return n
+			}
+			return r.fail()
+		}
+		return r.fail()
+	case c == '"':
+		return &zzJ{kind: 's', s: r.str()}
+	case c == 't':
+		return r.lit("true", 't')
+	case c == 'f':
+		return r.lit("false", 'f')
+	case c == 'n':
+		return r.lit("null", 'z')
+	case c == '-' || (c >= '0' && c <= '9'):
+		neg := false
+		if c == '-' {
+			neg = true
+			r.p++
+		}
+		if r.p >= len(r.t) || r.t[r.p] < '0' || r.t[r.p] > '9' {
+			return r.fail()
+		}
+		if r.t[r.p] == '0' && r.p+1 < len(r.t) && r.t[r.p+1] >= '0' && r.t[r.p+1] <= '9' {
+			return r.fail() // leading zero
+		}
+		v := 0
+		for r.p < len(r.t) && r.t[r.p] >= '0' && r.t[r.p] <= '9' {
+			v = v*10 + int(r.t[r.p]-'0')
+			r.p++
+		}
+		if r.p < len(r.t) && (r.t[r.p] == '.' || r.t[r.p] == 'e' || r.t[r.p] == 'E') {
+			return r.fail() // klog only emits integers
+		}
+		if neg {
+			v = -v
+		}
+		return &zzJ{kind: 'n', n: v}
+	}
+	return r.fail()
+}
+
+func zzReadJSON(text string) (*zzJ, bool) {
+	r := &zzJReader{t: text, ok: true}
+	v := r.value(0)
+	r.ws()
+	return v, r.ok && r.p == len(text)
+}
+
+func (j *zzJ) hasKeys(keys ...string) bool {
+	if j.kind != 'o' || len(j.keys) != len(keys) {
+		return false
+	}
+	for i := range keys {
+		if j.keys[i] != keys[i] {
+			return false
+		}
+	}
+	return true
+}
+
+func (j *zzJ) strs() ([]string, bool) {
+	if j.kind != 'a' {
+		return nil, false
+	}
+	out := []string{}
+	for _, e := range j.elems {
+		if e.kind != 's' {
+			return nil, false
+		}
+		out = append(out, e.s)
+	}
+	return out, true
+}
+
+func zzSameStrings(a, b []string) bool {
+	if len(a) != len(b) {
+		return false
+	}
+	for i := range a {
+		if a[i] != b[i] {
+			return false
+		}
+	}
+	return true
+}
+
+func zzSortedTags(ts *klog.TagSet) []string {
+	out := append([]string{}, ts.ToStrings()...)
+	for i := 1; i < len(out); i++ {
+		for k := i; k > 0 && out[k] < out[k-1]; k-- {
+			out[k], out[k-1] = out[k-1], out[k]
+		}
+	}
+	return out
+}
+
+func zzJoin(lines []string) string {
+	s := ""
+	for j, l := range lines {
+		if j > 0 {
+			s += "\n"
+		}
+		s += l
+	}
+	return s
+}
+
+// ZZ_C20_Json: the emitted TEXT is one well-formed JSON document; exactly one of
+// records / errors is non-null; every object has exactly the documented keys;
+// the values reproduce the parsed data; totals are consistent.
 func ZZ_C20_Json() {
 	d := parser.ZZGenDoc(zz.Param("L"), zz.Param("faults") == 1)
 	rs, _, errs := parser.NewSerialParser().Parse(d.Text())
 	text := json.ToJson(rs, errs, zz.Param("pretty") == 1)
-	env, ok := zzEnvelope(text)
-	zz.Assert(ok, "json-output-available")
+	zzCheckJSON(text, rs, errs)
+}
+
+func zzCheckRecordsJSON(text string, rs []klog.Record) { zzCheckJSON(text, rs, nil) }
+
+// zzCheckJSON: the assertions of C20 on an emitted text.
+func zzCheckJSON(text string, rs []klog.Record, errs []txt.Error) {
+	root, ok := zzReadJSON(text)
+	zz.Assert(ok, "json-well-formed")
+	zz.Assert(gojson.Valid([]byte(text)) == ok, "json-well-formed")
 	if !ok {
 		return
 	}
-	zz.Assert((env.Records == nil) != (env.Errors == nil), "exactly-one-of-records-and-errors")
+	zz.Assert(root.hasKeys("records", "errors"), "envelope-keys")
+	if !root.hasKeys("records", "errors") {
+		return
+	}
+	recs, ers := root.elems[0], root.elems[1]
+	zz.Assert((recs.kind == 'z') != (ers.kind == 'z'), "exactly-one-of-records-and-errors")
 	if errs != nil {
-		zz.Assert(env.Records == nil && len(env.Errors) == len(errs), "errors-listed")
-		if len(env.Errors) == len(errs) {
-			for i, v := range env.Errors {
-				zz.Assert(v.Line == errs[i].LineNumber() && v.Column == errs[i].Position()+1 && v.Length == errs[i].Length(), "error-position-as-in-terminal-report")
-				zz.Assert(v.Title == errs[i].Title() && v.Details == errs[i].Details(), "error-message-as-in-terminal-report")
+		zz.Assert(recs.kind == 'z' && ers.kind == 'a' && len(ers.elems) == len(errs), "errors-listed")
+		if ers.kind == 'a' && len(ers.elems) == len(errs) {
+			for i, v := range ers.elems {
+				if !v.hasKeys("line", "column", "length", "title", "details", "file") {
+					zz.Assert(false, "error-object-keys")
+					continue
+				}
+				e := v.elems
+				zz.Assert(e[0].kind == 'n' && e[1].kind == 'n' && e[2].kind == 'n' && e[3].kind == 's' && e[4].kind == 's' && e[5].kind == 's', "error-object-keys")
+				zz.Assert(e[0].n == errs[i].LineNumber() && e[1].n == errs[i].Position()+1 && e[2].n == errs[i].Length(), "error-position-as-in-terminal-report")
+				zz.Assert(e[3].s == errs[i].Title() && e[4].s == errs[i].Details(), "error-message-as-in-terminal-report")
 			}
 		}
 		return
 	}
-	zz.Assert(env.Errors == nil && len(env.Records) == len(rs), "records-listed-in-order")
-	if len(env.Records) != len(rs) {
+	zz.Assert(ers.kind == 'z' && recs.kind == 'a' && len(recs.elems) == len(rs), "records-listed-in-order")
+	if recs.kind != 'a' || len(recs.elems) != len(rs) {
 		return
 	}
-	for i, v := range env.Records {
+	for i, v := range recs.elems {
 		r := rs[i]
-		zz.Assert(v.Date == r.Date().ToString(), "record-date")
-		sum := ""
-		for j, l := range r.Summary().Lines() {
-			if j > 0 {
-				sum += "\n"
-			}
-			sum += l
+		if !v.hasKeys("date", "summary", "total", "total_mins", "should_total", "should_total_mins", "diff", "diff_mins", "tags", "entries") {
+			zz.Assert(false, "record-object-keys")
+			continue
 		}
-		zz.Assert(v.Summary == sum, "record-summary")
-		zz.Assert(v.ShouldTotalMins == r.ShouldTotal().InMinutes(), "should-total-mins")
-		zz.Assert(len(v.Entries) == len(r.Entries()), "entries-in-order")
+		f := v.elems
+		zz.Assert(f[0].kind == 's' && f[1].kind == 's' && f[2].kind == 's' && f[3].kind == 'n' && f[4].kind == 's' && f[5].kind == 'n' && f[6].kind == 's' && f[7].kind == 'n' && f[8].kind == 'a' && f[9].kind == 'a', "record-object-keys")
+		zz.Assert(f[0].s == r.Date().ToString(), "record-date")
+		zz.Assert(f[1].s == zzJoin(r.Summary().Lines()), "record-summary")
+		tags, tok := f[8].strs()
+		zz.Assert(tok && zzSameStrings(tags, zzSortedTags(r.Summary().Tags())), "record-tags")
+		zz.Assert(f[5].n == r.ShouldTotal().InMinutes(), "should-total-mins")
+		zz.Assert(f[4].s == r.ShouldTotal().ToString(), "should-total-text")
+		zz.Assert(len(f[9].elems) == len(r.Entries()), "entries-in-order")
 		total := 0
-		if len(v.Entries) == len(r.Entries()) {
-			for j, ev := range v.Entries {
+		if len(f[9].elems) == len(r.Entries()) {
+			for j, ev := range f[9].elems {
 				e := r.Entries()[j]
 				kind := klog.Unbox[string](&e, func(klog.Range) string { return "range" },
 					func(klog.Duration) string { return "duration" }, func(klog.OpenRange) string { return "open_range" })
-				switch x := ev.(type) {
-				case json.RangeView:
-					zz.Assert(kind == "range" && x.Type == "range", "entry-type")
-					zz.Assert(x.TotalMins == x.EndMins-x.StartMins, "range-total-is-end-minus-start")
-					zz.Assert(x.TotalMins == e.Duration().InMinutes(), "entry-total-mins")
-					total += x.TotalMins
-				case json.OpenRangeView:
-					zz.Assert(kind == "open_range" && x.Type == "open_range", "entry-type")
-					zz.Assert(x.TotalMins == 0, "open-range-counts-zero")
-				case json.EntryView:
-					zz.Assert(kind == "duration" && x.Type == "duration", "entry-type")
-					zz.Assert(x.TotalMins == e.Duration().InMinutes(), "entry-total-mins")
-					total += x.TotalMins
-				default:
-					zz.Assert(false, "entry-view-kind")
+				base := []string{"type", "summary", "tags", "total", "total_mins"}
+				switch kind {
+				case "open_range":
+					base = append(base, "start", "start_mins")
+				case "range":
+					base = append(base, "start", "start_mins", "end", "end_mins")
 				}
+				if !ev.hasKeys(base...) {
+					zz.Assert(false, "entry-object-keys")
+					continue
+				}
+				g := ev.elems
+				zz.Assert(g[0].kind == 's' && g[0].s == kind, "entry-type")
+				zz.Assert(g[1].kind == 's' && g[1].s == zzJoin(e.Summary().Lines()), "entry-summary")
+				etags, etok := g[2].strs()
+				zz.Assert(etok && zzSameStrings(etags, zzSortedTags(e.Summary().Tags())), "entry-tags")
+				zz.Assert(g[3].kind == 's' && g[4].kind == 'n', "entry-object-keys")
+				switch kind {
+				case "range":
+					rg := klog.Unbox[klog.Range](&e, func(x klog.Range) klog.Range { return x },
+						func(klog.Duration) klog.Range { return nil }, func(klog.OpenRange) klog.Range { return nil })
+					zz.Assert(g[5].kind == 's' && g[6].kind == 'n' && g[7].kind == 's' && g[8].kind == 'n', "entry-object-keys")
+					zz.Assert(g[5].s == rg.Start().ToString() && g[7].s == rg.End().ToString(), "start-end-notation")
+					zz.Assert(g[6].n == rg.Start().MidnightOffset().InMinutes() && g[8].n == rg.End().MidnightOffset().InMinutes(), "start-end-mins")
+					zz.Assert(g[4].n == g[8].n-g[6].n, "range-total-is-end-minus-start")
+					zz.Assert(g[4].n == e.Duration().InMinutes(), "entry-total-mins")
+				case "open_range":
+					or := klog.Unbox[klog.OpenRange](&e, func(klog.Range) klog.OpenRange { return nil },
+						func(klog.Duration) klog.OpenRange { return nil }, func(x klog.OpenRange) klog.OpenRange { return x })
+					zz.Assert(g[5].kind == 's' && g[6].kind == 'n', "entry-object-keys")
+					zz.Assert(g[5].s == or.Start().ToString(), "start-end-notation")
+					zz.Assert(g[6].n == or.Start().MidnightOffset().InMinutes(), "start-end-mins")
+					zz.Assert(g[4].n == 0, "open-range-counts-zero")
+				default:
+					zz.Assert(g[4].n == e.Duration().InMinutes(), "entry-total-mins")
+				}
+				total += g[4].n
 			}
 		}
-		zz.Assert(v.TotalMins == total, "total-mins-is-sum-of-entries")
-		zz.Assert(v.DiffMins == v.TotalMins-v.ShouldTotalMins, "diff-is-total-minus-should")
+		zz.Assert(f[3].n == total, "total-mins-is-sum-of-entries")
+		zz.Assert(f[7].n == f[3].n-f[5].n, "diff-is-total-minus-should")
 	}
+}
+
+func zzDigitStr(name string, k int) string {
+	s := zz.String(name, k)
+	for i := 0; i < k; i++ {
+		zz.Assume(zz.And(s[i] >= '0', s[i] <= '9'))
+	}
+	return s
+}
+
+// ZZ_C20_Values: one record whose entry is a range / open range / duration with
+// symbolic digits (ranges: every hour 00-24 with minutes 00/01/59 on both ends and day
+// shifts on either side; open ranges and signed durations: all digits symbolic); the JSON text must carry every documented key and
+// the denoted values.
+func ZZ_C20_Values() {
+	var line string
+	switch zz.Param("kind") {
+	case 0:
+		if zz.ParamOr("small", 0) == 1 {
+			line = []string{"", "<"}[zz.Choose(2)] + zzDigitStr("sh", 2) + ":00 - " + []string{"23:59", "24:00", "00:00>", "00:00"}[zz.Choose(4)]
+			break
+		}
+		mins := []string{"00", "01", "59"}
+		line = []string{"", "<"}[zz.Choose(2)] + zzDigitStr("sh", 2) + ":" + mins[zz.Choose(3)] + " - " +
+			zzDigitStr("eh", 2) + ":" + mins[zz.Choose(3)] + []string{"", ">"}[zz.Choose(2)]
+	case 1:
+		line = []string{"", "<", ">"}[zz.Choose(3)]
+		if line == ">" {
+			line = zzDigitStr("sh", 2) + ":" + zzDigitStr("sm", 2) + "> - ?"
+		} else {
+			line += zzDigitStr("sh", 2) + ":" + zzDigitStr("sm", 2) + " - ?"
+		}
+	case 2:
+		line = []string{"", "-", "+"}[zz.Choose(3)] + zzDigitStr("h", 1) + "h" + zzDigitStr("m", 2) + "m"
+	}
+	text := "2020-01-01 (" + zzDigitStr("sd", 1) + "h!)\n    " + line + " s\n"
+	rs, _, errs := parser.NewSerialParser().Parse(text)
+	if errs != nil {
+		zz.Stop()
+	}
+	out := json.ToJson(rs, nil, zz.Param("pretty") == 1)
+	zzCheckRecordsJSON(out, rs)
 }
